@@ -133,7 +133,7 @@ func (b *builder) key() []byte {
 	return []byte{c}
 }
 
-const nTemplates = 22
+const nTemplates = 28
 
 func (b *builder) value(t int) aval {
 	switch t {
@@ -240,13 +240,49 @@ func (b *builder) value(t int) aval {
 		b.gap()
 		b.lit("[]]")
 		return aval{kind: kArr, arr: []aval{{kind: kArr, arr: []aval{e}}, {kind: kArr}}}
-	default:
+	case 21:
 		b.lit("[true,")
 		b.gap()
 		b.lit("null,")
 		e := b.strTok(4)
 		b.lit("]")
 		return aval{kind: kArr, arr: []aval{{kind: kBool, b: true}, {kind: kNull}, e}}
+	case 22, 23, 24: // string member value: plain byte, \u00HL spelling, two-character escape
+		b.lit("{")
+		k := b.key()
+		b.lit(":")
+		b.gap()
+		v := b.strTok([]int{0, 2, 3}[t-22])
+		b.lit("}")
+		return aval{kind: kObj, keys: [][]byte{k}, vals: []aval{v}}
+	case 25: // object inside an array
+		b.lit("[{")
+		k := b.key()
+		b.lit(":")
+		v := b.intTok(0)
+		b.lit("}")
+		b.gap()
+		b.lit("]")
+		return aval{kind: kArr, arr: []aval{{kind: kObj, keys: [][]byte{k}, vals: []aval{v}}}}
+	case 26: // scalar, then object, then scalar inside an array
+		b.lit("[")
+		e1 := b.intTok(0)
+		b.lit(",{")
+		k := b.key()
+		b.lit(":null},")
+		b.gap()
+		e3 := b.strTok(0)
+		b.lit("]")
+		return aval{kind: kArr, arr: []aval{e1, {kind: kObj, keys: [][]byte{k}, vals: []aval{{kind: kNull}}}, e3}}
+	default: // object inside an object
+		b.lit("{")
+		k := b.key()
+		b.lit(":{")
+		k2 := b.key()
+		b.lit(":")
+		v := b.intTok(0)
+		b.lit("}}")
+		return aval{kind: kObj, keys: [][]byte{k}, vals: []aval{{kind: kObj, keys: [][]byte{k2}, vals: []aval{v}}}}
 	}
 }
 
